@@ -121,6 +121,16 @@ theorem isZero_num {y : LitVal} {q : Rat} (hy : y.toRat? = some q) (h : isZero y
   unfold isZero pyEq at h
   cases y <;> simp_all [LitVal.toRat?]
 
+theorem isZero_of_toRat_zero {y : LitVal} (h : y.toRat? = some 0) : isZero y = true := by
+  cases y with
+  | int n => simp only [LitVal.toRat?, Option.some.injEq] at h; simp [isZero, pyEq, LitVal.toRat?, h]
+  | flt q => simp only [LitVal.toRat?, Option.some.injEq] at h; simp [isZero, pyEq, LitVal.toRat?, h]
+  | bool b => cases b <;> simp_all [LitVal.toRat?, isZero, pyEq]
+  | inf => simp [LitVal.toRat?] at h
+  | ninf => simp [LitVal.toRat?] at h
+  | nan => simp [LitVal.toRat?] at h
+  | str s => simp [LitVal.toRat?] at h
+
 theorem isOne_num {y : LitVal} {q : Rat} (hy : y.toRat? = some q) (h : isOne y = true) : q = 1 := by
   unfold isOne pyEq at h
   cases y <;> simp_all [LitVal.toRat?]
@@ -225,6 +235,632 @@ theorem simpAddition_sound (t : DataType) (a b r : Expr) (h : simpAddition (.bin
         · obtain ⟨z, hz, h⟩ := bind_ok h
           rw [litNumber_eval opq h ρ]
           exact pyArith_value hxv hyv hz
+
+
+/-! ## constructors, evaluated -/
+
+theorem mkBin_ok_eval {op : String} {a b e : Expr} (h : mkBin op a b = .ok e) {ρ : Env} {x y v : Value}
+    (hx : eval opq ρ a = .ok x) (hy : eval opq ρ b = .ok y) (hv : binOp op x y = .ok v) : eval opq ρ e = .ok v := by
+  rw [mkBin_eval opq h ρ, hx, hy]; simpa [bind, Except.bind] using hv
+
+theorem mkUn_ok_eval {op : String} {a e : Expr} (h : mkUn op a = .ok e) {ρ : Env} {x v : Value}
+    (hx : eval opq ρ a = .ok x) (hv : unOp op x = .ok v) : eval opq ρ e = .ok v := by
+  rw [mkUn_eval opq h ρ, hx]; simpa [bind, Except.bind] using hv
+
+theorem binOp_add_num (x y : Rat) : binOp "+" (Value.num x) (Value.num y) = .ok (Value.num (x + y)) := by
+  rw [binOp_add]; rfl
+theorem binOp_sub_num (x y : Rat) : binOp "-" (Value.num x) (Value.num y) = .ok (Value.num (x - y)) := by
+  rw [binOp_sub]; rfl
+theorem binOp_mul_num (x y : Rat) : binOp "*" (Value.num x) (Value.num y) = .ok (Value.num (x * y)) := by
+  rw [binOp_mul]; rfl
+theorem unOp_neg_num (x : Rat) : unOp "-" (Value.num x) = .ok (Value.num (-x)) := by
+  rw [unOp_neg]; rfl
+
+/-! ## `_simplify_subtraction` -/
+
+theorem simpSubtraction_sound (t : DataType) (a b r : Expr) (h : simpSubtraction (.bin t "-" a b) a b = .ok r) :
+    Pres opq r (.bin t "-" a b) := by
+  intro ρ v hv
+  obtain ⟨x, y, hx, hy, hop⟩ := (eval_bin_ok opq).1 hv
+  obtain ⟨qx, qy, rfl, rfl, rfl⟩ := arith_ok binOp_sub hop
+  have rest : ∀ r, (if (a == b) = true then litNumber (.int 0)
+      else match b with
+        | .un _ op x => if (op == "-") = true then do
+            let e ← mkAdd a x
+            (match e with | .bin _ _ a' b' => simpAddition e a' b' | _ => .ok e) else .ok (.bin t "-" a b)
+        | _ => .ok (.bin t "-" a b)) = .ok r → eval opq ρ r = .ok (Value.num (qx - qy)) := by
+    intro r hr
+    split at hr
+    · rename_i heq
+      have : a = b := expr_eq_of_beq heq
+      subst this
+      rw [hx] at hy; cases hy
+      rw [eval_zero_lit opq hr ρ]; congr 2; grind
+    · split at hr
+      · rename_i _ tb opb xb _
+        split at hr
+        · rename_i hminus
+          have hopb : opb = "-" := eq_of_beq hminus
+          subst hopb
+          obtain ⟨e, he, hr⟩ := bind_ok hr
+          obtain ⟨xv, hxv, hu⟩ := (eval_un_ok opq).1 hy
+          rw [unOp_neg] at hu
+          cases hn : asNum xv with
+          | error e' => rw [hn] at hu; simp [bind, Except.bind] at hu
+          | ok qxb =>
+            rw [hn] at hu
+            simp only [bind, Except.bind, pure, Except.pure, Except.ok.injEq, Value.num, Value.prim.injEq, Prim.num.injEq] at hu
+            have hxb : eval opq ρ xb = .ok (Value.num qxb) := by rw [hxv, asNum_ok.1 hn]
+            have hsum : eval opq ρ e = .ok (Value.num (qx + qxb)) := mkBin_ok_eval opq he hx hxb (binOp_add_num qx qxb)
+            have hgoal : (qx - qy) = qx + qxb := by rw [← hu]; grind
+            rw [hgoal]
+            obtain ⟨te, a', b', rfl⟩ := mkBin_shape he
+            simp only at hr
+            exact simpAddition_sound opq te a' b' r hr ρ _ hsum
+        · cases hr; exact hv
+      · cases hr; exact hv
+  unfold simpSubtraction at h
+  simp only at h
+  cases hlb : litVal? b with
+  | none => rw [hlb] at h; exact rest r h
+  | some yv =>
+    rw [hlb] at h
+    simp only at h
+    obtain ⟨tb, kb, rfl⟩ := litVal_some hlb
+    have hyv : yv.toRat? = some qy := toRat_of_num (by rw [← eval_lit opq ρ tb kb yv]; exact hy)
+    split at h
+    · rename_i hz
+      cases h
+      have := isZero_num hyv hz
+      subst this
+      have : qx - 0 = qx := by grind
+      rw [this]; exact hx
+    · cases hla : litVal? a with
+      | none => rw [hla] at h; exact rest r h
+      | some xv =>
+        rw [hla] at h
+        simp only at h
+        obtain ⟨ta, ka, rfl⟩ := litVal_some hla
+        have hxv : xv.toRat? = some qx := toRat_of_num (by rw [← eval_lit opq ρ ta ka xv]; exact hx)
+        obtain ⟨z, hz, h⟩ := bind_ok h
+        rw [litNumber_eval opq h ρ]
+        exact pyArith_value hxv hyv hz
+
+
+/-! ## `_simplify_division` -/
+
+theorem div_ok {x y v : Value} (h : binOp "/" x y = .ok v) :
+    ∃ qx qy, x = Value.num qx ∧ y = Value.num qy ∧ qy ≠ 0 ∧ v = Value.num (qx / qy) := by
+  rw [binOp_div] at h
+  cases hx : asNum x with
+  | error e => rw [hx] at h; simp [bind, Except.bind] at h
+  | ok qx =>
+    cases hy : asNum y with
+    | error e => rw [hx, hy] at h; simp [bind, Except.bind] at h
+    | ok qy =>
+      rw [hx, hy] at h
+      simp only [bind, Except.bind] at h
+      split at h
+      · cases h
+      · rename_i hne
+        simp only [pure, Except.pure, Except.ok.injEq] at h
+        exact ⟨qx, qy, asNum_ok.1 hx, asNum_ok.1 hy, hne, h.symm⟩
+
+theorem eval_int_lit {n : Int} {e : Expr} (h : litNumber (.int n) = .ok e) (ρ : Env) : eval opq ρ e = .ok (Value.num n) := by
+  rw [litNumber_eval opq h ρ]; rfl
+
+theorem simpDivision_sound (t : DataType) (a b r : Expr) (h : simpDivision (.bin t "/" a b) a b = .ok r) :
+    Pres opq r (.bin t "/" a b) := by
+  intro ρ v hv
+  obtain ⟨x, y, hx, hy, hop⟩ := (eval_bin_ok opq).1 hv
+  obtain ⟨qx, qy, rfl, rfl, hne, rfl⟩ := div_ok hop
+  have rest : ∀ r, (if (a == b) = true then litNumber (.int 1)
+      else if obviousNegatives a b = true then litNumber (.int (-1)) else .ok (.bin t "/" a b)) = .ok r →
+      eval opq ρ r = .ok (Value.num (qx / qy)) := by
+    intro r hr
+    split at hr
+    · rename_i heq
+      have : a = b := expr_eq_of_beq heq
+      subst this
+      rw [hx] at hy
+      have hq : qx = qy := by simpa [Value.num] using hy
+      subst hq
+      rw [eval_int_lit opq hr ρ]; congr 2; grind
+    · split at hr
+      · rename_i hneg
+        have := obviousNegatives_num opq hneg hx hy
+        rw [eval_int_lit opq hr ρ]; congr 2; subst this; grind
+      · cases hr; exact hv
+  unfold simpDivision at h
+  simp only at h
+  cases hlb : litVal? b with
+  | none => rw [hlb] at h; exact rest r h
+  | some yv =>
+    rw [hlb] at h
+    simp only at h
+    obtain ⟨tb, kb, rfl⟩ := litVal_some hlb
+    have hyv : yv.toRat? = some qy := toRat_of_num (by rw [← eval_lit opq ρ tb kb yv]; exact hy)
+    split at h
+    · cases h
+    · split at h
+      · rename_i hone
+        cases h
+        have := isOne_num hyv hone
+        subst this
+        have : qx / 1 = qx := by grind
+        rw [this]; exact hx
+      · cases hla : litVal? a with
+        | none => rw [hla] at h; exact rest r h
+        | some xv =>
+          rw [hla] at h
+          simp only at h
+          obtain ⟨ta, ka, rfl⟩ := litVal_some hla
+          have hxv : xv.toRat? = some qx := toRat_of_num (by rw [← eval_lit opq ρ ta ka xv]; exact hx)
+          split at h
+          · rename_i hz
+            cases h
+            have := isZero_num hxv hz
+            subst this
+            have : (0 : Rat) / qy = 0 := by grind
+            rw [this]; exact hx
+          · obtain ⟨z, hz, h⟩ := bind_ok h
+            rw [litNumber_eval opq h ρ]
+            unfold pyDiv at hz
+            simp only [hxv, hyv, hne, ↓reduceIte] at hz
+            cases hz; rfl
+
+
+/-! ## `_simplify_exponentiation` -/
+
+theorem pow_ok {x y v : Value} (h : binOp "**" x y = .ok v) :
+    ∃ qx qy r, x = Value.num qx ∧ y = Value.num qy ∧ isInt qy = true ∧ ratPow qx qy.num = .ok r ∧ v = Value.num r := by
+  rw [binOp_pow] at h
+  cases hx : asNum x with
+  | error e => rw [hx] at h; simp [bind, Except.bind] at h
+  | ok qx =>
+    cases hy : asNum y with
+    | error e => rw [hx, hy] at h; simp [bind, Except.bind] at h
+    | ok qy =>
+      rw [hx, hy] at h
+      simp only [bind, Except.bind] at h
+      split at h
+      · rename_i hi
+        cases hr : ratPow qx qy.num with
+        | error e => rw [hr] at h; cases h
+        | ok r =>
+          rw [hr] at h
+          simp only [pure, Except.pure, Except.ok.injEq] at h
+          exact ⟨qx, qy, r, asNum_ok.1 hx, asNum_ok.1 hy, hi, hr, h.symm⟩
+      · cases h
+
+theorem rat_one_pow : ∀ n : Nat, (1 : Rat) ^ n = 1
+  | 0 => Rat.pow_zero 1
+  | n + 1 => by rw [Rat.pow_succ, rat_one_pow n]; grind
+
+theorem rat_zero_pow : ∀ n : Nat, n ≠ 0 → (0 : Rat) ^ n = 0
+  | 0, h => absurd rfl h
+  | n + 1, _ => by rw [Rat.pow_succ]; grind
+
+theorem simpExponentiation_sound (t : DataType) (a b r : Expr) (h : simpExponentiation (.bin t "**" a b) a b = .ok r) :
+    Pres opq r (.bin t "**" a b) := by
+  intro ρ v hv
+  obtain ⟨x, y, hx, hy, hop⟩ := (eval_bin_ok opq).1 hv
+  obtain ⟨qx, qy, pw, rfl, rfl, hint, hpow, rfl⟩ := pow_ok hop
+  unfold simpExponentiation at h
+  cases hlb : litVal? b with
+  | none => rw [hlb] at h; cases h; exact hv
+  | some yv =>
+    rw [hlb] at h
+    simp only at h
+    obtain ⟨tb, kb, rfl⟩ := litVal_some hlb
+    have hyv : yv.toRat? = some qy := toRat_of_num (by rw [← eval_lit opq ρ tb kb yv]; exact hy)
+    split at h
+    · rename_i hone
+      cases h
+      have := isOne_num hyv hone
+      subst this
+      have : pw = qx := by
+        have h1 : ((1 : Rat).num) = Int.ofNat 1 := rfl
+        rw [h1] at hpow
+        simp only [ratPow] at hpow
+        have : ¬ (1 > 4096) := by decide
+        simp only [this, ↓reduceIte, Except.ok.injEq, Rat.pow_one] at hpow
+        exact hpow.symm
+      rw [this]; exact hx
+    · split at h
+      · rename_i hzero
+        have := isZero_num hyv hzero
+        subst this
+        have : pw = 1 := by
+          have h1 : ((0 : Rat).num) = Int.ofNat 0 := rfl
+          rw [h1] at hpow
+          simp only [ratPow] at hpow
+          have : ¬ (0 > 4096) := by decide
+          simp only [this, ↓reduceIte, Except.ok.injEq, Rat.pow_zero] at hpow
+          exact hpow.symm
+        rw [this, eval_int_lit opq h ρ]; rfl
+      · rename_i hnz hnone
+        cases hla : litVal? a with
+        | none => rw [hla] at h; cases h; exact hv
+        | some xv =>
+          rw [hla] at h
+          simp only at h
+          obtain ⟨ta, ka, rfl⟩ := litVal_some hla
+          have hxv : xv.toRat? = some qx := toRat_of_num (by rw [← eval_lit opq ρ ta ka xv]; exact hx)
+          -- the exponent is an integer
+          have hqy : (qy.num : Rat) = qy := by
+            simp only [isInt, beq_iff_eq] at hint
+            exact Rat.ext (by simp) (by simp [hint])
+          split at h
+          · rename_i h01
+            cases h
+            simp only [Bool.or_eq_true] at h01
+            rcases h01 with h1 | h0
+            · have := isOne_num hxv h1
+              subst this
+              have : pw = 1 := by
+                cases hn : qy.num with
+                | ofNat n =>
+                  rw [hn] at hpow; simp only [ratPow] at hpow
+                  split at hpow
+                  · cases hpow
+                  · simp only [Except.ok.injEq] at hpow; rw [← hpow]; exact rat_one_pow n
+                | negSucc n =>
+                  rw [hn] at hpow; simp only [ratPow] at hpow
+                  split at hpow
+                  · cases hpow
+                  · simp only [Except.ok.injEq] at hpow; rw [← hpow, rat_one_pow]; grind
+              rw [this]; exact hx
+            · have := isZero_num hxv h0
+              subst this
+              have : pw = 0 := by
+                cases hn : qy.num with
+                | ofNat n =>
+                  rw [hn] at hpow; simp only [ratPow] at hpow
+                  split at hpow
+                  · cases hpow
+                  · simp only [Except.ok.injEq] at hpow
+                    rw [← hpow]
+                    apply rat_zero_pow
+                    intro hn0; subst hn0
+                    -- then the exponent literal is zero, which the earlier test would have caught
+                    have : qy = 0 := by rw [← hqy, hn]; rfl
+                    subst this
+                    exact hnone (isZero_of_toRat_zero hyv)
+                | negSucc n =>
+                  rw [hn] at hpow; simp only [ratPow] at hpow
+                  simp at hpow
+              rw [this]; exact hx
+          · obtain ⟨z, hz, h⟩ := bind_ok h
+            rw [litNumber_eval opq h ρ]
+            unfold pyPow at hz
+            rw [hxv] at hz
+            cases yv with
+            | int n =>
+              have hq : qy = (n : Rat) := by simpa [LitVal.toRat?] using hyv.symm
+              have hnum : qy.num = n := by rw [hq]; simp
+              rw [hnum] at hpow
+              simp only at hz
+              split at hz
+              · rename_i hge
+                split at hz
+                · cases hz
+                · rename_i hle
+                  cases hz
+                  rw [mkNumVal_value]
+                  obtain ⟨m, rfl⟩ : ∃ m : Nat, n = Int.ofNat m := ⟨n.toNat, (Int.toNat_of_nonneg hge).symm⟩
+                  simp only [ratPow] at hpow
+                  split at hpow
+                  · cases hpow
+                  · simp only [Except.ok.injEq] at hpow; rw [← hpow]; simp
+              · rename_i hlt
+                split at hz
+                · cases hz
+                · split at hz
+                  · cases hz
+                  · cases hz
+                    obtain ⟨m, rfl⟩ : ∃ m : Nat, n = Int.negSucc m := ⟨(-n - 1).toNat, by omega⟩
+                    simp only [ratPow] at hpow
+                    split at hpow
+                    · cases hpow
+                    · simp only [Except.ok.injEq] at hpow
+                      rw [← hpow]
+                      have : (-Int.negSucc m).toNat = m + 1 := by omega
+                      simp only [litValue, this]
+            | bool _ => simp at hz; cases hz
+            | flt _ => simp at hz; cases hz
+            | inf => simp at hz; cases hz
+            | ninf => simp at hz; cases hz
+            | nan => simp at hz; cases hz
+            | str _ => simp at hz; cases hz
+
+
+/-! ## comparisons of literals -/
+
+theorem prim_num_beq (a b : Rat) : (Prim.num a == Prim.num b) = (a == b) := by
+  by_cases h : a = b
+  · subst h; simp
+  · have : Prim.num a ≠ Prim.num b := by intro hh; cases hh; exact h rfl
+    rw [beq_eq_false_iff_ne.2 this, beq_eq_false_iff_ne.2 h]
+
+theorem pyEq_sound {x y : LitVal} {px py : Prim} {r : Bool} (hx : litValue x = .ok (.prim px)) (hy : litValue y = .ok (.prim py))
+    (h : Prim.eq px py = .ok r) : pyEq x y = r := by
+  cases x <;> cases y <;>
+    simp only [litValue, Value.bool, Value.num, Except.ok.injEq, Value.prim.injEq, reduceCtorEq] at hx hy <;>
+    subst hx <;> subst hy <;>
+    simp [Prim.eq, Prim.isNumeric, pyEq, LitVal.toRat?, prim_num_beq] at h ⊢ <;> first | exact h | (subst h; rfl) | skip
+  rename_i b1 b2
+  cases b1 <;> cases b2 <;> simp_all
+
+theorem pyLt_sound {x y : LitVal} {px py : Prim} {r : Bool} (hx : litValue x = .ok (.prim px)) (hy : litValue y = .ok (.prim py))
+    (h : Prim.lt px py = .ok r) : pyLt x y = .ok r := by
+  cases x <;> cases y <;>
+    simp only [litValue, Value.bool, Value.num, Except.ok.injEq, Value.prim.injEq, reduceCtorEq] at hx hy <;>
+    subst hx <;> subst hy <;>
+    simp [Prim.lt, pyLt, LitVal.toRat?] at h ⊢ <;> first | exact h | (subst h; rfl) | skip
+
+theorem not_nan_of_value {x : LitVal} {v : Value} (h : litValue x = .ok v) : (x matches .nan) = false := by
+  cases x <;> simp [litValue] at h ⊢
+
+theorem asPrim_ok {v : Value} {p : Prim} : asPrim v = .ok p ↔ v = .prim p := by
+  cases v <;> simp [asPrim]
+
+/-- inversion of the six comparison operators: both operands are primitive values -/
+theorem cmp_prims {op : String} (hop : op = "=" ∨ op = "!=" ∨ op = "<" ∨ op = "<=" ∨ op = ">" ∨ op = ">=") {x y v : Value}
+    (h : binOp op x y = .ok v) : ∃ px py, x = .prim px ∧ y = .prim py := by
+  have key : ∀ (F : Prim → Prim → EM Value), (do let a ← asPrim x; let b ← asPrim y; F a b) = .ok v → ∃ px py, x = .prim px ∧ y = .prim py := by
+    intro F hF
+    cases hx : asPrim x with
+    | error e => rw [hx] at hF; simp [bind, Except.bind] at hF
+    | ok px =>
+      cases hy : asPrim y with
+      | error e => rw [hx, hy] at hF; simp [bind, Except.bind] at hF
+      | ok py => exact ⟨px, py, asPrim_ok.1 hx, asPrim_ok.1 hy⟩
+  rcases hop with rfl | rfl | rfl | rfl | rfl | rfl
+  · rw [binOp_eq] at h; exact key (fun a b => do let r ← Prim.eq a b; pure (Value.bool r)) h
+  · rw [binOp_ne] at h; exact key (fun a b => do let r ← Prim.eq a b; pure (Value.bool (!r))) h
+  · rw [binOp_lt] at h; exact key (fun a b => do let r ← Prim.lt a b; pure (Value.bool r)) h
+  · rw [binOp_le] at h; exact key (fun a b => do let r ← Prim.lt b a; pure (Value.bool (!r))) h
+  · rw [binOp_gt] at h; exact key (fun a b => do let r ← Prim.lt b a; pure (Value.bool r)) h
+  · rw [binOp_ge] at h; exact key (fun a b => do let r ← Prim.lt a b; pure (Value.bool (!r))) h
+
+theorem eval_litBool (ρ : Env) (b : Bool) : eval opq ρ (litBool b) = .ok (Value.bool b) := rfl
+
+/-- the literal-folding branch of `_simplify_comparison` -/
+def foldCmp (op : String) (x y : LitVal) : M Expr :=
+  if op == "=" then .ok (litBool (pyEq x y))
+  else if op == "<" then do let r ← pyLt x y; pure (litBool r)
+  else if op == "<=" then do let r ← pyLt y x; pure (litBool (!r && !(x matches .nan) && !(y matches .nan)))
+  else if op == ">" then do let r ← pyLt y x; pure (litBool r)
+  else if op == ">=" then do let r ← pyLt x y; pure (litBool (!r && !(x matches .nan) && !(y matches .nan)))
+  else .ok (litBool (!pyEq x y))
+
+theorem simpComparison_lits (phi : Expr) (op : String) (ta tb : DataType) (ka kb : String) (x y : LitVal) :
+    simpComparison phi op (.lit ta ka x) (.lit tb kb y) = foldCmp op x y := by
+  simp only [simpComparison, litVal?, foldCmp]
+  cases x <;> cases y <;> rfl
+
+/-- folding a comparison of two literals gives the value the comparison has -/
+theorem foldComparison_sound {op : String} (hop : op = "=" ∨ op = "!=" ∨ op = "<" ∨ op = "<=" ∨ op = ">" ∨ op = ">=")
+    {x y : LitVal} {px py : Prim} {v : Value} (hx : litValue x = .ok (.prim px)) (hy : litValue y = .ok (.prim py))
+    (h : binOp op (.prim px) (.prim py) = .ok v) {r : Expr}
+    (hr : foldCmp op x y = .ok r) (ρ : Env) : eval opq ρ r = .ok v := by
+  unfold foldCmp at hr
+  rcases hop with rfl | rfl | rfl | rfl | rfl | rfl
+  · simp only [beq_self_eq_true, ↓reduceIte, Except.ok.injEq] at hr
+    subst hr
+    rw [binOp_eq] at h
+    simp only [asPrim, bind, Except.bind] at h
+    cases he : Prim.eq px py with
+    | error e => rw [he] at h; cases h
+    | ok b => rw [he] at h; simp only [pure, Except.pure, Except.ok.injEq] at h; rw [pyEq_sound hx hy he, eval_litBool, h]
+  · have e1 : ("!=" == "=") = false := by decide
+    have e2 : ("!=" == "<") = false := by decide
+    have e3 : ("!=" == "<=") = false := by decide
+    have e4 : ("!=" == ">") = false := by decide
+    have e5 : ("!=" == ">=") = false := by decide
+    simp only [e1, e2, e3, e4, e5, Bool.false_eq_true, ↓reduceIte, Except.ok.injEq] at hr
+    subst hr
+    rw [binOp_ne] at h
+    simp only [asPrim, bind, Except.bind] at h
+    cases he : Prim.eq px py with
+    | error e => rw [he] at h; cases h
+    | ok b => rw [he] at h; simp only [pure, Except.pure, Except.ok.injEq] at h; rw [pyEq_sound hx hy he, eval_litBool, h]
+  · have e1 : ("<" == "=") = false := by decide
+    simp only [e1, Bool.false_eq_true, ↓reduceIte, beq_self_eq_true] at hr
+    rw [binOp_lt] at h
+    simp only [asPrim, bind, Except.bind] at h
+    cases he : Prim.lt px py with
+    | error e => rw [he] at h; cases h
+    | ok b =>
+      rw [he] at h; simp only [pure, Except.pure, Except.ok.injEq] at h
+      rw [pyLt_sound hx hy he] at hr
+      simp only [bind, Except.bind, pure, Except.pure, Except.ok.injEq] at hr
+      subst hr; rw [eval_litBool, h]
+  · have e1 : ("<=" == "=") = false := by decide
+    have e2 : ("<=" == "<") = false := by decide
+    simp only [e1, e2, Bool.false_eq_true, ↓reduceIte, beq_self_eq_true] at hr
+    rw [binOp_le] at h
+    simp only [asPrim, bind, Except.bind] at h
+    cases he : Prim.lt py px with
+    | error e => rw [he] at h; cases h
+    | ok b =>
+      rw [he] at h; simp only [pure, Except.pure, Except.ok.injEq] at h
+      rw [pyLt_sound hy hx he] at hr
+      simp only [bind, Except.bind, pure, Except.pure, Except.ok.injEq] at hr
+      subst hr; rw [eval_litBool, ← h]
+      split
+      · simp [litValue] at hx
+      · split
+        · simp [litValue] at hy
+        · simp
+  · have e1 : (">" == "=") = false := by decide
+    have e2 : (">" == "<") = false := by decide
+    have e3 : (">" == "<=") = false := by decide
+    simp only [e1, e2, e3, Bool.false_eq_true, ↓reduceIte, beq_self_eq_true] at hr
+    rw [binOp_gt] at h
+    simp only [asPrim, bind, Except.bind] at h
+    cases he : Prim.lt py px with
+    | error e => rw [he] at h; cases h
+    | ok b =>
+      rw [he] at h; simp only [pure, Except.pure, Except.ok.injEq] at h
+      rw [pyLt_sound hy hx he] at hr
+      simp only [bind, Except.bind, pure, Except.pure, Except.ok.injEq] at hr
+      subst hr; rw [eval_litBool, h]
+  · have e1 : (">=" == "=") = false := by decide
+    have e2 : (">=" == "<") = false := by decide
+    have e3 : (">=" == "<=") = false := by decide
+    have e4 : (">=" == ">") = false := by decide
+    simp only [e1, e2, e3, e4, Bool.false_eq_true, ↓reduceIte, beq_self_eq_true] at hr
+    rw [binOp_ge] at h
+    simp only [asPrim, bind, Except.bind] at h
+    cases he : Prim.lt px py with
+    | error e => rw [he] at h; cases h
+    | ok b =>
+      rw [he] at h; simp only [pure, Except.pure, Except.ok.injEq] at h
+      rw [pyLt_sound hx hy he] at hr
+      simp only [bind, Except.bind, pure, Except.pure, Except.ok.injEq] at hr
+      subst hr; rw [eval_litBool, ← h]
+      split
+      · simp [litValue] at hx
+      · split
+        · simp [litValue] at hy
+        · simp
+
+
+/-! ## the `obviously different` test, value level -/
+
+theorem not_values_differ {x : Value} {pa pb : Prim} {r : Bool} (hx : x = .prim pb) (hu : unOp Gen.NOT_OPERATOR x = .ok (.prim pa))
+    (he : Prim.eq pa pb = .ok r ∨ Prim.eq pb pa = .ok r) : r = false := by
+  subst hx
+  rw [show Gen.NOT_OPERATOR = "not" from rfl, unOp_not] at hu
+  cases pb with
+  | bool c =>
+    simp only [asBool, bind, Except.bind, pure, Except.pure, Except.ok.injEq, Value.bool, Value.prim.injEq] at hu
+    subst hu
+    rcases he with he | he <;> simp [Prim.eq] at he <;> subst he <;> cases c <;> rfl
+  | _ => simp [asBool, bind, Except.bind] at hu
+
+theorem obviouslyDifferent_ne {a b : Expr} (h : obviouslyDifferent a b = true) {ρ : Env} {pa pb : Prim} {r : Bool}
+    (ha : eval opq ρ a = .ok (.prim pa)) (hb : eval opq ρ b = .ok (.prim pb)) (he : Prim.eq pa pb = .ok r) : r = false := by
+  -- `b` is `not a`
+  have right : ∀ {t2 : DataType} {op2 : String} {y : Expr}, b = .un t2 op2 y → (op2 == Gen.NOT_OPERATOR && y == a) = true → r = false := by
+    intro t2 op2 y hbe hm
+    subst hbe
+    simp only [Bool.and_eq_true] at hm
+    have h1 : op2 = Gen.NOT_OPERATOR := eq_of_beq hm.1
+    have h2 : y = a := expr_eq_of_beq hm.2
+    subst h1; subst h2
+    obtain ⟨x, hx, hu⟩ := (eval_un_ok opq).1 hb
+    rw [ha] at hx; cases hx
+    exact not_values_differ rfl hu (Or.inr he)
+  cases a with
+  | un t op x =>
+    simp only [obviouslyDifferent] at h
+    split at h
+    · rename_i hop
+      have h1 : op = Gen.NOT_OPERATOR := eq_of_beq hop
+      have h2 : x = b := expr_eq_of_beq h
+      subst h1; subst h2
+      obtain ⟨xv, hxv, hu⟩ := (eval_un_ok opq).1 ha
+      rw [hb] at hxv; cases hxv
+      exact not_values_differ rfl hu (Or.inl he)
+    · cases b with
+      | un t2 op2 y => exact right rfl h
+      | _ => simp at h
+  | bin t op x k =>
+    simp only [obviouslyDifferent, Bool.or_eq_true, Bool.and_eq_true] at h
+    rcases h with h | ⟨⟨hop, hxb⟩, hk⟩
+    · cases b with
+      | un t2 op2 y => exact right rfl (by simpa [Bool.and_eq_true] using h)
+      | _ => simp at h
+    · have hx : x = b := expr_eq_of_beq hxb
+      subst hx
+      obtain ⟨xv, kv, hxv, hkv, hbin⟩ := (eval_bin_ok opq).1 ha
+      rw [hb] at hxv; cases hxv
+      cases k with
+      | lit tk kk lv =>
+        simp only [Bool.not_eq_true'] at hk
+        rcases hop with hop | hop
+        · have := eq_of_beq hop; subst this
+          obtain ⟨qx, qk, hqx, hqk, hv⟩ := arith_ok binOp_add hbin
+          simp only [Value.num, Value.prim.injEq] at hqx hv
+          subst hqx; subst hv
+          have hne : qk ≠ 0 := by
+            intro hz; subst hz
+            have := isZero_of_toRat_zero (toRat_of_num (by rw [← eval_lit opq ρ tk kk lv]; exact hkv.trans (by rw [hqk])))
+            rw [this] at hk; cases hk
+          simp only [Prim.eq, Prim.isNumeric, Bool.and_self, ↓reduceIte, Except.ok.injEq, prim_num_beq] at he
+          rw [← he]; simp only [beq_eq_false_iff_ne, ne_eq]; intro hh; apply hne; grind
+        · have := eq_of_beq hop; subst this
+          obtain ⟨qx, qk, hqx, hqk, hv⟩ := arith_ok binOp_sub hbin
+          simp only [Value.num, Value.prim.injEq] at hqx hv
+          subst hqx; subst hv
+          have hne : qk ≠ 0 := by
+            intro hz; subst hz
+            have := isZero_of_toRat_zero (toRat_of_num (by rw [← eval_lit opq ρ tk kk lv]; exact hkv.trans (by rw [hqk])))
+            rw [this] at hk; cases hk
+          simp only [Prim.eq, Prim.isNumeric, Bool.and_self, ↓reduceIte, Except.ok.injEq, prim_num_beq] at he
+          rw [← he]; simp only [beq_eq_false_iff_ne, ne_eq]; intro hh; apply hne; grind
+      | _ => simp at hk
+  | lit _ _ _ | this _ | var _ _ | set _ _ | range _ _ _ _ _ | quant _ _ _ _ _ | call _ _ _ | field _ _ _ | index _ _ _ =>
+    cases b with
+    | un t2 op2 y => exact right rfl (by simpa [obviouslyDifferent, Bool.and_eq_true] using h)
+    | _ => simp [obviouslyDifferent] at h
+
+/-! ## `_simplify_comparison` -/
+
+theorem simpComparison_sound (t : DataType) (op : String) (hop : op = "=" ∨ op = "!=" ∨ op = "<" ∨ op = "<=" ∨ op = ">" ∨ op = ">=")
+    (a b r : Expr) (h : simpComparison (.bin t op a b) op a b = .ok r) : Pres opq r (.bin t op a b) := by
+  intro ρ v hv
+  obtain ⟨x, y, hx, hy, hbin⟩ := (eval_bin_ok opq).1 hv
+  obtain ⟨px, py, rfl, rfl⟩ := cmp_prims hop hbin
+  have nonlit : ∀ r, (if obviouslyDifferent a b = true then
+        (if op == "=" then .ok falseLit else if op == "!=" then .ok trueLit else .ok (.bin t op a b))
+      else (.ok (.bin t op a b) : M Expr)) = .ok r → eval opq ρ r = .ok v := by
+    intro r hr
+    split at hr
+    · rename_i hd
+      split at hr
+      · rename_i he
+        have := eq_of_beq he; subst this
+        cases hr
+        rw [binOp_eq] at hbin
+        simp only [asPrim, bind, Except.bind] at hbin
+        cases hq : Prim.eq px py with
+        | error e => rw [hq] at hbin; cases hbin
+        | ok c =>
+          rw [hq] at hbin
+          simp only [pure, Except.pure, Except.ok.injEq] at hbin
+          have := obviouslyDifferent_ne opq hd hx hy hq
+          subst this; rw [← hbin]; rfl
+      · split at hr
+        · rename_i _ hne
+          have := eq_of_beq hne; subst this
+          cases hr
+          rw [binOp_ne] at hbin
+          simp only [asPrim, bind, Except.bind] at hbin
+          cases hq : Prim.eq px py with
+          | error e => rw [hq] at hbin; cases hbin
+          | ok c =>
+            rw [hq] at hbin
+            simp only [pure, Except.pure, Except.ok.injEq] at hbin
+            have := obviouslyDifferent_ne opq hd hx hy hq
+            subst this; rw [← hbin]; rfl
+        · cases hr; exact hv
+    · cases hr; exact hv
+  have h0 := h
+  unfold simpComparison at h
+  cases hla : litVal? a with
+  | none => rw [hla] at h; exact nonlit r h
+  | some xv =>
+    cases hlb : litVal? b with
+    | none => rw [hla, hlb] at h; exact nonlit r h
+    | some yv =>
+      obtain ⟨ta, ka, rfl⟩ := litVal_some hla
+      obtain ⟨tb, kb, rfl⟩ := litVal_some hlb
+      have h' : foldCmp op xv yv = .ok r := by rw [← simpComparison_lits (.bin t op (.lit ta ka xv) (.lit tb kb yv)) op ta tb ka kb xv yv]; exact h0
+      exact foldComparison_sound opq hop (by rw [← eval_lit opq ρ ta ka xv]; exact hx) (by rw [← eval_lit opq ρ tb kb yv]; exact hy) hbin h' ρ
 
 end
 end Hpl
